@@ -86,11 +86,11 @@ void checkTime(const sess::History& h, const uci::Model& m, const Scenario& sc, 
                 res.violate("C06", "limit-invariant", std::string(what) + ": soft=" + std::to_string(e.minT) + " hard=" + std::to_string(e.maxT) +
                             " budget=" + std::to_string(B) + " violates 1 <= soft <= hard <= budget" + ctx);
         };
-        if (!g.ponder && B > 0) checkPair(*startEv, "limits handed to the search");
-        if (g.ponder && (startEv->minT != -1 || startEv->maxT != -1))
+        if (!g.ponderKw && B > 0) checkPair(*startEv, "limits handed to the search");
+        if (g.ponderKw && (startEv->minT != -1 || startEv->maxT != -1))
             res.violate("C06", "ponder-limits", "a ponder search was started with time limits" + ctx);
         // ---- (2) deadline for plain timed searches
-        if (!g.ponder && B > 0 && g.posKnown) {
+        if (!g.ponderKw && B > 0 && g.posKnown) {
             long long Dns = (startEv->start + B) * 1000000LL + injected;
             long after = ticksAfter(h, Dns, bm.mainTicks);
             res.counters["deadline_checked"]++;
@@ -112,7 +112,7 @@ void checkTime(const sess::History& h, const uci::Model& m, const Scenario& sc, 
                 res.counters["stop_checked"]++;
                 if (nodesAfter > N + 2)
                     res.violate("C06", "stop-latency", std::to_string(nodesAfter) + " main-search nodes between stop and bestmove (allowed " + std::to_string(N) + ")" + ctx);
-                else if (nodesAfter == 0 && dt > 10000000LL + slackNs + injected && h.engineSleeps.empty() == false) {
+                else if (nodesAfter == 0 && dt > 10000000LL + slackNs + injected && (g.ponderKw || g.modelInfinite) && effectiveMaxNPS(g) == 0) {
                     // engine was not searching: it sits in the 10 ms ponder/infinite wait loop
                     res.violate("C06", "stop-latency", "bestmove " + std::to_string(dt / 1000) + " us after stop although the search had already ended (allowed 10 ms)" + ctx);
                 }
@@ -128,7 +128,7 @@ void checkTime(const sess::History& h, const uci::Model& m, const Scenario& sc, 
                         res.counters["probe_ponderhit_limits_exhausted"]++;
                         if (nodesAfter > N + 2)
                             res.violate("C06", "ponderhit-latency", std::to_string(nodesAfter) + " main-search nodes after ponderhit with exhausted limits" + ctx);
-                        else if (nodesAfter == 0 && dt > 10000000LL + slackNs + injected)
+                        else if (nodesAfter == 0 && dt > 10000000LL + slackNs + injected && effectiveMaxNPS(g) == 0)
                             res.violate("C06", "ponderhit-latency", "bestmove " + std::to_string(dt / 1000) + " us after ponderhit although limits were exhausted and the search idle" + ctx);
                     }
                     long long Dns = e->t + B * 1000000LL + injected;
